@@ -44,6 +44,7 @@ def specs_instantiate(tier):
 
 def build_instantiate(eng, bounds, spec):
     sc = W.Scenario(eng, bounds, ST.label(spec))
+    sc.world.closed = True          # instantiation starts from the empty store: a namespace nothing has written yet is empty
     ti = eng.ti
     S, I = sc.s, sc.i
     opt = dict(spec['opt'])
